@@ -1312,6 +1312,10 @@ def api_edit_leg(col: common.Collector, r: Any, rounds: int) -> None:
                      hasattr(s.request.parameters[0], "coded_value") and s.short_name not in added]
         # every prefix in use has been asked for before the edit (a tool listing the services)
         used = {bytes(s.request.coded_const_prefix())[:1] for s in base.services if s.request is not None}
+        # (a new service that takes over the prefix of a service of the OLD database - e.g. of one
+        # deleted meanwhile - is that service renamed, as far as the comparison is defined)
+        used |= {bytes(s.request.coded_const_prefix())[:1]
+                 for s in db_old.base_variants.somersault.services if s.request is not None}
         free = [v for v in range(0x30, 0x7E) if bytes([v]) not in used]
         if not templates or not free:
             break
